@@ -151,6 +151,8 @@ TREES = {
 TREES["TB"] = {f"f{i:04d}": f"bulk{i}" for i in range(BULK_N)}
 TREES["TS"] = dict(SPECIAL_TREE)                      # special names (see lab.SPECIAL_NAMES)
 TREES["TW"] = {"a": "tw1", "b": "tw2"}                # two objects sharing the two-character fan-out prefix
+# listing keys no file system produces but a listing may carry: '.', empty and '..' components
+TREES["TO"] = {"./a": "x", "a": "y", "d//g": "z", "d/g": "w", "s/../t": "v", "t": "e"}
 MD5 = dict(MD5, **BULK_MD5, **SPECIAL_MD5, **TWINS_MD5)
 CONTENTS = dict(CONTENTS, **BULK, **SPECIAL, **TWINS)
 LISTING = {t: {rel: MD5[c] for rel, c in files.items()} for t, files in TREES.items()}
@@ -175,6 +177,7 @@ SCENARIOS = {
     "bulk": ["TB"],
     "special": ["TS"],
     "twins": ["TW", "T1"],
+    "oddkeys": ["TO"],
 }
 
 
